@@ -442,9 +442,13 @@ func (vc *VC) heap(st *State, name, sortS string) *Term {
 func (vc *VC) nextArr(st *State) *Term { return vc.heap(st, "$nextArr", SInt) }
 
 func (vc *VC) alloc(st *State) *Term {
+	// every allocation site execution gets its own symbol: two exclusive branches that allocate from the same counter value
+	// must not share an id (facts and side tables - string keys, origins - are attached to the id's term)
 	n := vc.nextArr(st)
-	st.heaps["$nextArr"] = Add(n, One)
-	return n
+	a := vc.fresh("alloc", SInt)
+	vc.assume(Le(n, a))
+	st.heaps["$nextArr"] = Add(a, One)
+	return a
 }
 
 // loadElem reads element (arr, idx) of element type elem from memory.
